@@ -52,6 +52,7 @@ func runC03(p *core.Prog, r *core.Report) {
 	// a copy with referrers or digest tags copies what the listings say: the referrer cache never holds a filtered answer (shared with C10.R2), and the tag listing reports a failing page instead of a short list (shared with C06.R4)
 	c10R2(p, r, "C03.R12")
 	c06R4(p, r, "C03.R13")
+	c03R16(p, r, trav, "C03.R16")
 }
 
 // c03R10: the copy skips what the target already has, and asks the target with a head request. A
@@ -918,5 +919,89 @@ func c03R7(p *core.Prog, r *core.Report, rule string) {
 	})
 	if n == 0 {
 		r.Held(rule, fname, "no existence test on the target", p.Pos(fn.Pos()), "BlobCopy does not ask the target whether the blob exists; nothing can be answered by a third party")
+	}
+}
+
+// c03R16: an index entry whose media type is not in the table could be a manifest (an artifact
+// manifest of a type this client does not know) or a blob. Trying it as a manifest first is what
+// makes its config, layers and nested entries part of the copy: where manifests can be read through
+// the blob API (layouts, layout-backed registries, a mount) a blob copy of a manifest succeeds, and
+// nothing below it is copied while the copy reports success.
+func c03R16(p *core.Prog, r *core.Report, trav *ssa.Function, rule string) {
+	r.Rule(rule, "unknown entries are tried as a manifest first: where a goroutine of the copy traversal copies one descriptor both with the traversal itself and as a blob, the blob copy is reachable only from the failure edge of the manifest copy", 1)
+	n := 0
+	for _, g := range core.WithAnon(trav) {
+		var recs, blobs []*ssa.Call
+		core.Calls(g, func(c ssa.CallInstruction) {
+			call, ok := c.(*ssa.Call)
+			if !ok {
+				return
+			}
+			switch gfn := core.CalleeFn(c); {
+			case gfn == trav:
+				recs = append(recs, call)
+			case gfn != nil && canon(gfn) == "imageCopyBlob":
+				blobs = append(blobs, call)
+			}
+		})
+		lab := labeler{}
+		for _, bc := range blobs {
+			for _, rc := range recs {
+				// the same descriptor: some argument of the blob copy is also an argument of the recursion
+				same := false
+				for _, a := range bc.Call.Args {
+					if !core.IsModNamed(a.Type(), "types/descriptor", "Descriptor") {
+						continue
+					}
+					for _, b := range rc.Call.Args {
+						if a == b {
+							same = true
+							continue
+						}
+						if !core.IsModNamed(b.Type(), "types/descriptor", "Descriptor") {
+							continue
+						}
+						// two loads of one variable
+						oa := map[ssa.Value]bool{}
+						for _, o := range core.Origins(a, core.SliceOpts{}) {
+							if o.Val != nil {
+								oa[o.Val] = true
+							}
+						}
+						for _, o := range core.Origins(b, core.SliceOpts{}) {
+							if o.Val != nil && oa[o.Val] {
+								same = true
+							}
+						}
+					}
+				}
+				if !same {
+					continue
+				}
+				// only where one of the two copies can follow the other (the same case of the switch)
+				if !(core.Reach{}).FromInstr(rc)[bc] && !(core.Reach{}).FromInstr(bc)[rc] {
+					continue
+				}
+				n++
+				ok := false
+				for _, e := range errEdgesOf(g, rc) {
+					if (core.Reach{}).FromEdge(e[0], e[1])[bc] {
+						ok = true
+					}
+				}
+				// and not reachable on a path that never made the manifest copy
+				if ok {
+					entry := core.Reach{Stop: func(in ssa.Instruction) bool { return in == ssa.Instruction(rc) }}.FromEntry(g)
+					if entry[bc] {
+						ok = false
+					}
+				}
+				r.Check(ok, rule, p.FuncName(g), lab.next("manifest copy before blob copy"), p.Pos(bc.Pos()),
+					"the blob copy of this entry does not (only) follow a failed manifest copy of it: an entry that is a manifest of an unknown type is stored as an opaque blob and what it references is never copied")
+			}
+		}
+	}
+	if n == 0 {
+		r.Held(rule, p.FuncName(trav), "manifest copy before blob copy", p.Pos(trav.Pos()), "no goroutine copies one descriptor both ways")
 	}
 }
